@@ -123,6 +123,12 @@ func (fr *frame) instr(b *ssa.BasicBlock, ins ssa.Instruction, st *state) bool {
 			t := &Term{S: a, T: x.Type()}
 			l := g.locOfPointer(t)
 			g.zeroObject(st, l.base, l.idx, el, false)
+			if el.String() == "strings.Builder" {
+				// ghost content of a fresh builder: the empty string
+				old := g.base(st, "SB.content", "Int", 1, false)
+				nv := g.newVersion(st, "SB.content")
+				g.assert("(= " + nv + " (store " + old + " " + a + " " + g.U.StrLit("") + "))")
+			}
 			fr.env[x] = &Term{S: a, T: x.Type()}
 		}
 	case *ssa.FieldAddr:
@@ -791,12 +797,7 @@ func (fr *frame) makeInterface(x *ssa.MakeInterface, st *state) {
 		fr.env[x] = &Term{S: "(EErr " + id + ")", T: x.Type()}
 		return
 	}
-	if g.U.sortOf(x.Type()) != "Val" {
-		// non-empty interface (VariableFetcher ...): opaque object
-		id := g.fresh("ifaceobj", "Int")
-		fr.env[x] = &Term{S: id, T: x.Type()}
-		return
-	}
+
 	if isInterface(x.X.Type()) {
 		fr.env[x] = &Term{S: v.S, T: x.Type()}
 		return
